@@ -157,7 +157,8 @@ class Gen:
             elifs = [[self.expr(pool, 1, False), self.stmts(ti, pool, depth - 1)] for _ in range(r.choice([0, 0, 1]))]
             if self._hostile_used:
                 self.hostile_targets.add(ti)
-            return [["if", cond, self.stmts(ti, pool, depth - 1), elifs, self.stmts(ti, pool, depth - 1) if r.random() < 0.6 else []]]
+            then = self.stmts(ti, pool, depth - 1) if r.random() < 0.9 else []
+            return [["if", cond, then, elifs, self.stmts(ti, pool, depth - 1) if r.random() < 0.6 else []]]
         test_pool = [i for i in pool if self.sigs[i]["w"] <= 4]
         if not test_pool:
             return self.stmts(ti, pool, 0)
@@ -168,7 +169,8 @@ class Gen:
             v = r.getrandbits(w)
             if s and v >= (1 << (w - 1)):
                 v -= 1 << w
-            vals[str(v)] = self.stmts(ti, pool, depth - 1)
+            # (an arm or branch with no statement is legal FHDL: 'do nothing for this value', not 'fall to the default')
+            vals[str(v)] = self.stmts(ti, pool, depth - 1) if r.random() < 0.85 else []
         return [["case", ["sig", t], vals, self.stmts(ti, pool, depth - 1) if r.random() < 0.6 else None]]
 
     # ---------------------------------------------------------------- design
